@@ -48,7 +48,8 @@ DECIDING = [
     'numqi.entangle._misc.hf_interpolate_dm', 'numqi.entangle.symext.get_ABk_symmetric_extension_boundary',
     'numqi.entangle.symext.is_ABk_symmetric_ext', 'PureBosonicExt.forward', 'AutodiffCHAREE.forward',
     'CHABoundaryBagging.solve', 'threshold/dm', 'threshold/ppt', 'threshold/batched', 'interpolate', 'nesting/offline',
-    'inner-in-outer/labelled-state-at-symext', 'cha/feasible-point', 'reference-bosonic-sdp', 'api-surface',
+    'inner-in-outer/labelled-state-at-symext', 'cha/feasible-point', 'reference-bosonic-sdp', 'api-surface', 'tiny-distance', 'numerical-range/ray', 'gellmann-norm',
+    'numqi.entangle.symext.get_ABk_extension_numerical_range', 'numqi.entangle.ppt.get_ppt_numerical_range',
 ]
 
 TOL_ORDER = 1e-4      # slack for orderings that involve an SDP / LP answer
@@ -90,7 +91,7 @@ def shards(tier, seed):
         ret += nest[7:]
         ret.append({'name': 'pureb-a', 'cfg': [[3, 3, 2], [2, 4, 2], [2, 2, 4], [2, 2, 2], [2, 3, 2]], 'nstate': 2, 'cpu_budget_s': B,
                     'api': {'symext': [[2, 2, 2], [2, 2, 1]], 'dims': [[2, 2], [2, 3], [3, 2]], 'models': [[2, 2, 2], [2, 3, 2]]}})
-        ret.append({'name': 'thresholds', 'n': 60, 'certk': certk_q, 'cpu_budget_s': B})
+        ret.append({'name': 'thresholds', 'n': 60, 'certk': certk_q, 'tiny': True, 'numrange': [[2, 2, 3], [2, 3, 2]], 'cpu_budget_s': B})
     else:
         # measured CPU (seed 0): pureb-33-k3 / pureb-24-k3 / cha-* 450-900 s (single feasibility solves of 100-1000 s on boundary states),
         # nest-23-* 200-350 s, nest-24-* / nest-33-* 150-280 s, everything else < 120 s
@@ -116,6 +117,7 @@ def shards(tier, seed):
         ret.append({'name': 'api-23', 'api': {'symext': [[2, 3, 2], [2, 3, 1], [2, 3, 3]], 'dims': [[2, 3], [2, 4]], 'models': [[2, 3, 2], [2, 4, 2]]},
                     'cpu_budget_s': B})
         ret.append({'name': 'api-33', 'api': {'symext': [[3, 3, 2], [3, 3, 1]], 'dims': [[3, 3]], 'models': [[3, 3, 2]], 'full': False}, 'cpu_budget_s': B})
+        ret.append({'name': 'numrange', 'tiny': True, 'numrange': [[2, 2, 4], [2, 2, 3], [2, 3, 3], [2, 3, 2], [3, 3, 2], [2, 4, 2]], 'cpu_budget_s': B})
         ret += [{'name': f'thresholds-{i}', 'n': 800} for i in range(3)]
     return ret
 
@@ -169,6 +171,17 @@ class Mon:
         return e
 
 
+EPS = 2.220446049250313e-16
+COND_C = 50.0       # measured on the unchanged tree: boundaries of rho0 + t*H have relative error <= 3.3*eps/t (t = 1e-4 .. 1e-12)
+
+
+def direction_kappa(x):
+    """relative accuracy to which the *direction* of a unit-trace Hermitian matrix is known: its traceless part t*H is the
+    difference of O(1/d) numbers, i.e. known to eps/t. Tolerances of everything derived from the direction scale with it."""
+    n = R.bloch_norm(x)
+    return float('inf') if n <= 0 else COND_C * EPS / n
+
+
 def content_digest(x):
     return digest(np.ascontiguousarray(np.asarray(x), dtype=np.complex128))
 
@@ -179,12 +192,12 @@ def _admissible(x, tol=1e-9):
         return False
     if abs(np.trace(x) - 1) > tol or np.abs(x - x.conj().T).max() > tol:
         return False
-    return R.bloch_norm(x) > 1e-9
+    return R.bloch_norm(x) > 1e-13
 
 
 def _cfg_str(e):
     if e['method'] == 'symext':
-        return f"symext(k={e['k']},ppt={int(e['ppt'])},boson={int(e['boson'])})"
+        return f"symext(k={e['k']},ppt={int(e['ppt'])},boson={int(e['boson'])})" + (f"[{e['src']}]" if e.get('src') else '')
     if e['method'] in ('pureb-state', 'kext-state', 'ref-boson'):
         return f"{e['method']}(k={e['k']})"
     return e['method']
@@ -215,7 +228,13 @@ def install(ctx, numqi, mon):
         ctx.check(ok, f'{pre}/sign', f'{pre}: need beta_l < 0 < beta_u and finite (the maximally mixed state is interior)', wit, point=point)
         if not ok:
             return
+        kappa = direction_kappa(item) if norm is None else max(direction_kappa(item), 0.0)
+        if 2 * kappa > 1e-3:
+            ctx.inconclusive('threshold/direction-known-to-less-than-1e-3')
+            return
         for side, beta in (('beta_u', float(bu)), ('beta_l', float(bl))):
+            if kappa > 0.1 * PROBE:
+                break  # the ray itself is not known to the probe distance: only the conditioned value check below applies
             m_in = margin(R.ray_point(item, beta * (1 - PROBE), norm))
             m_out = margin(R.ray_point(item, beta * (1 + PROBE), norm))
             mon.note_margin(f'{kind}/{side}/inside', m_in)
@@ -224,13 +243,14 @@ def install(ctx, numqi, mon):
                       '(reported boundary is too far out)', lambda: wit(side=side, margin_inside=m_in), point=point)
             ctx.check(m_out < 0, f'{pre}/{side}/{name_out}', f'{pre}: the point at {side}*(1+1e-6) on the ray still satisfies the criterion '
                       '(reported boundary is too far in)', lambda: wit(side=side, margin_outside=m_out), point=point)
-        if with_bisection:
+        if with_bisection or kappa > 0.1 * PROBE:
             if kind == 'dm':
                 rl, ru = R.dm_boundary(item, norm)
             else:
                 rl, ru = R.ppt_boundary(item, dims[0], dims[1], norm, within_dm)
             if rl is not None and ru is not None:
-                ctx.check(abs(bu - ru) <= 1e-8 * abs(ru) and abs(bl - rl) <= 1e-8 * abs(rl), f'{pre}/value-vs-bisection',
+                rt = max(1e-8, 2 * kappa)
+                ctx.check(abs(bu - ru) <= rt * abs(ru) and abs(bl - rl) <= rt * abs(rl), f'{pre}/value-vs-bisection',
                           f'{pre}: reported boundary differs from the bisection of the criterion along the ray',
                           lambda: wit(ref_l=rl, ref_u=ru), point=point)
 
@@ -270,7 +290,7 @@ def install(ctx, numqi, mon):
                 ctx.inconclusive('dm_boundary/inadmissible-input')
                 continue
             check_threshold('dm', item, norms[i], bl[i], bu[i], with_bisection=(i < 6))
-            if top and norms[i] is None:
+            if top and norms[i] is None and R.bloch_norm(item) >= 1e-5:
                 mon.event(item, None, 'dm', bu[i])
         if dm.ndim > 2:
             f = ctx.orig(E._misc.get_density_matrix_boundary)
@@ -313,7 +333,7 @@ def install(ctx, numqi, mon):
                 ctx.inconclusive('ppt_boundary/inadmissible-input')
                 continue
             check_threshold('ppt', item, norms[i], bl[i], bu[i], dims=dims, within_dm=within_dm, with_bisection=(i < 6))
-            if within_dm and norms[i] is None and mon.depth == 0:
+            if within_dm and norms[i] is None and mon.depth == 0 and R.bloch_norm(item) >= 1e-5:
                 mon.event(item, dims, 'ppt', bu[i])
                 if i < 6:
                     r_dm = R.dm_boundary(item)[1]
@@ -353,18 +373,25 @@ def install(ctx, numqi, mon):
         v_res = R.bloch(res)
         n_rho = float(np.linalg.norm(v_rho))
         scale = max(1.0, abs(float(beta if beta is not None else alpha)))
+        tol_i = 1e-10
+        if beta is not None and dm_norm is None:
+            kap = direction_kappa(rho)
+            if kap > 1e-3:
+                ctx.inconclusive('interpolate/direction-known-to-less-than-1e-3')
+                return
+            tol_i = max(1e-10, kap)
         wit = lambda **kw: dict({'alpha': alpha, 'beta': beta, 'dm_norm': dm_norm, 'rho': rho, 'bloch_norm_rho': n_rho,
                                  'bloch_norm_result': float(np.linalg.norm(v_res))}, **kw)
-        ctx.check(abs(np.trace(res) - 1) <= 1e-12 * scale and np.abs(res - res.conj().T).max() <= 1e-12 * scale, 'interpolate/trace-hermitian',
+        ctx.check(abs(np.trace(res) - 1) <= max(1e-12, tol_i) * scale and np.abs(res - res.conj().T).max() <= max(1e-12, tol_i) * scale, 'interpolate/trace-hermitian',
                   'hf_interpolate_dm result is not a Hermitian trace-one matrix', wit, point='interpolate')
         if beta is not None:
             n = n_rho if dm_norm is None else float(dm_norm)
             if not n > 0:
                 return
             expected = (float(beta) / n) * v_rho
-            ctx.check(abs(np.linalg.norm(v_res) - abs(float(beta)) * n_rho / n) <= 1e-10 * scale, 'interpolate/distance',
+            ctx.check(abs(np.linalg.norm(v_res) - abs(float(beta)) * n_rho / n) <= tol_i * scale, 'interpolate/distance',
                       'hf_interpolate_dm(beta=b): Gell-Mann distance of the result from the maximally mixed state is not |b|', wit, point='interpolate')
-            ctx.check(np.abs(v_res - expected).max() <= 1e-10 * scale, 'interpolate/direction',
+            ctx.check(np.abs(v_res - expected).max() <= tol_i * scale, 'interpolate/direction',
                       'hf_interpolate_dm(beta=b): Bloch vector of the result is not b * unit(Bloch vector of rho)', wit, point='interpolate')
         else:
             ctx.check(np.abs(v_res - float(alpha) * v_rho).max() <= 1e-10 * scale, 'interpolate/alpha',
@@ -399,7 +426,7 @@ def install(ctx, numqi, mon):
             if beta is None or not np.isfinite(beta):
                 ctx.inconclusive('symext-boundary-none')
                 continue
-            if not _admissible(item):
+            if not _admissible(item) or R.bloch_norm(item) < 1e-5:
                 continue
             ctx.check(float(beta) > 0, 'symext_boundary/not-positive', 'k-extension boundary must be positive (the maximally mixed state is interior)',
                       {'dims': dims, 'k': k, 'ppt': use_ppt, 'boson': use_boson, 'beta': float(beta)})
@@ -487,6 +514,139 @@ def install(ctx, numqi, mon):
         return r
 
     mon.refined_boundary = refined_boundary
+
+    def refined_numrange(rho, dims, k, use_ppt, use_boson, src):
+        """the numerical-range entry points re-solved to 1e-8 along the ray of rho (own complete operator basis)."""
+        key = (src, content_digest(rho), tuple(dims), int(k), bool(use_ppt), bool(use_boson))
+        if key in mon.refined:
+            return mon.refined[key]
+        d = rho.shape[0]
+        ops = R.gm_basis(d) / 2
+        v = R.bloch(rho)
+        nv = float(np.linalg.norm(v))
+        orig_solve = cvxpy.Problem.solve
+
+        def solve(self, *a, **kw):
+            if 'solver' not in kw:
+                kw = dict(kw, solver='SCS', eps=1e-8, max_iters=200000)
+            return orig_solve(self, *a, **kw)
+        cvxpy.Problem.solve = solve
+        try:
+            with ctx.quiet(), warnings.catch_warnings(record=True) as w:
+                warnings.simplefilter('always')
+                try:
+                    if src == 'pptnr':
+                        r = ctx.orig(E.ppt.get_ppt_numerical_range)(ops, v / nv, dims, use_tqdm=False)
+                    else:
+                        r = ctx.orig(E.symext.get_ABk_extension_numerical_range)(ops, v / nv, dims, k, use_ppt=use_ppt, use_boson=use_boson, use_tqdm=False)
+                    r = None if (r is None or not np.all(np.isfinite(r))) else float(r)
+                except SolverError:
+                    r = None
+            if r is not None and any('inaccurate' in str(x.message).lower() for x in w):
+                r = None
+        finally:
+            cvxpy.Problem.solve = orig_solve
+        mon.refined[key] = r
+        mon.n_refined += 1
+        return r
+
+    mon.refined_numrange = refined_numrange
+
+    # ---------------------------------------------------------------- numerical-range entry points (rays given by expectation values)
+    def log_numrange(c, dims, k, use_ppt, use_boson, return_info, src):
+        ops = np.asarray(c.arg(0, 'op_list'))
+        direction = np.asarray(c.arg(1, 'direction'), dtype=np.float64)
+        res = c.result[0] if return_info else c.result
+        single = direction.ndim == 1
+        rows = direction[None] if single else direction
+        vals = [res] if single else list(np.reshape(res, -1))
+        ok = len(vals) == len(rows)
+        ctx.check(ok, f'{src}/batch-shape', 'numerical range: one beta per direction expected', {'n': len(rows), 'out': np.shape(res)})
+        if not ok or ops.ndim != 3:
+            return
+        d = ops.shape[1]
+        for row, beta in zip(rows, vals):
+            if beta is None or not np.isfinite(beta):
+                ctx.inconclusive('numerical-range-none')
+                continue
+            x = R.ray_from_expectations(ops, row)
+            if x is None:
+                continue  # not a complete operator basis: the feasible set is a cross-section, not a ray
+            rho_ray = np.eye(d) / d + x
+            sx = R.bloch_norm(rho_ray)
+            if not sx > 1e-9:
+                continue
+            ctx.hit('numerical-range/ray')
+            mon.event(R.herm(np.eye(d) / d + (0.2 / sx) * x), dims, 'symext', float(beta) * sx, k=k, ppt=use_ppt, boson=use_boson, src=src)
+
+    def post_ext_numrange(c):
+        if c.exc is not None:
+            if isinstance(c.exc, SolverError):
+                ctx.inconclusive('numerical-range-solver-error')
+            return
+        dims = tuple(int(t) for t in c.arg(2, 'dim'))
+        log_numrange(c, dims, int(c.arg(3, 'kext')), bool(c.arg(4, 'use_ppt', False)), bool(c.arg(5, 'use_boson', False)),
+                     bool(c.arg(7, 'return_info', False)), 'numrange')
+
+    ctx.attach(E.symext, 'get_ABk_extension_numerical_range', post=post_ext_numrange, point='numqi.entangle.symext.get_ABk_extension_numerical_range')
+
+    def post_ppt_numrange(c):
+        if c.exc is not None:
+            if isinstance(c.exc, SolverError):
+                ctx.inconclusive('numerical-range-solver-error')
+            return
+        dims = tuple(int(t) for t in c.arg(2, 'dim'))
+        log_numrange(c, dims, 1, True, False, bool(c.arg(3, 'return_info', False)), 'pptnr')
+
+    ctx.attach(E.ppt, 'get_ppt_numerical_range', post=post_ppt_numrange, point='numqi.entangle.ppt.get_ppt_numerical_range')
+
+    # ---------------------------------------------------------------- the Gell-Mann norm every boundary is scaled with
+    def post_gm_norm(c):
+        if c.exc is not None:
+            return
+        dm = c.arg(0, 'dm')
+        if not isinstance(dm, np.ndarray) or dm.ndim < 2 or dm.shape[-1] != dm.shape[-2] or not np.all(np.isfinite(dm)):
+            return
+        N0 = dm.shape[-1]
+        items = dm.reshape(-1, N0, N0)
+        res = np.asarray(c.result, dtype=np.float64).reshape(-1)
+        if len(res) != len(items):
+            ctx.check(False, 'gellmann_norm/batch-shape', 'dm_to_gellmann_norm must return one norm per matrix', {'in': dm.shape, 'out': np.shape(c.result)})
+            return
+        for item, r in zip(items[:64], res[:64]):
+            tl = item - (np.trace(item) / N0) * np.eye(N0)
+            ref = math.sqrt(float(np.vdot(tl, tl).real) / 2)
+            fro = math.sqrt(float(np.vdot(item, item).real))
+            # honest rounding: the traceless part is a difference of O(|dm|) numbers -> absolute error O(eps*|dm|) (measured <= 0.05 eps)
+            ctx.check(abs(r - ref) <= COND_C * EPS * (1 + fro), 'gellmann_norm/absolute-error-above-rounding',
+                      'dm_to_gellmann_norm differs from |dm - tr(dm)/d 1|_F/sqrt(2) by more than 50 eps (1+|dm|_F): catastrophic cancellation near the '
+                      'maximally mixed state?', lambda: {'got': float(r), 'expected': ref, 'abs_err': abs(r - ref), 'rel_err': abs(r - ref) / ref if ref else None,
+                                                        'rho': item}, point='gellmann-norm')
+
+    ctx.attach(numqi.gellmann, 'dm_to_gellmann_norm', post=post_gm_norm, point='numqi.gellmann.dm_to_gellmann_norm')
+
+    # ---------------------------------------------------------------- is_ppt (membership test of the PPT criterion, bipartite)
+    def post_is_ppt(c):
+        if c.exc is not None:
+            return
+        rho = np.asarray(c.arg(0, 'rho'))
+        dim = c.arg(1, 'dim')
+        eps = float(c.arg(2, 'eps', -1e-7))
+        try:
+            dim = tuple(int(t) for t in dim)
+        except TypeError:
+            return
+        if len(dim) != 2 or rho.ndim != 2 or rho.shape[0] != dim[0] * dim[1]:
+            return
+        m = R.pt_margin(rho, dim[0], dim[1])
+        if abs(m - eps) <= 1e-9:
+            ctx.inconclusive('is_ppt/at-threshold')
+            return
+        ctx.check(bool(c.result) == (m > eps), 'is_ppt/disagrees-with-reference-partial-transpose',
+                  'is_ppt differs from "smallest eigenvalue of the explicit partial transpose >= eps"', {'dims': dim, 'eps': eps, 'margin': m, 'got': bool(c.result)},
+                  point='is_ppt')
+
+    ctx.attach(E.ppt, 'is_ppt', post=post_is_ppt, point='numqi.entangle.ppt.is_ppt')
 
     def post_is_symext(c):
         if c.exc is not None:
@@ -751,7 +911,10 @@ def _refined_beta(mon, e, dig, d):
     rho = mon.rho_of_dir.get((dig, d))
     if rho is None:
         return None
-    r = mon.refined_boundary(rho, e['dims'], e['k'], e['ppt'], e['boson'])
+    if e.get('src') in ('numrange', 'pptnr'):
+        r = mon.refined_numrange(rho, e['dims'], e['k'], e['ppt'], e['boson'], e['src'])
+    else:
+        r = mon.refined_boundary(rho, e['dims'], e['k'], e['ppt'], e['boson'])
     return None if r is None else float(r)
 
 
@@ -764,7 +927,7 @@ def check_nesting(ctx, mon):
         # identical repeated events (same method/config/beta) are compared once
         uniq = {}
         for e in evs:
-            uniq.setdefault((e['method'], e['dims'], e.get('k'), e.get('ppt'), e.get('boson'), round(e['beta'], 12)), e)
+            uniq.setdefault((e['method'], e.get('src'), e['dims'], e.get('k'), e.get('ppt'), e.get('boson'), round(e['beta'], 12)), e)
         evs = list(uniq.values())
         betas = [e['beta'] for e in evs]
         has_sdp = any(e['method'] in ('symext', 'cha', 'pureb-state', 'sep-point', 'kext-state', 'ref-boson') for e in evs)
@@ -827,6 +990,9 @@ def check_nesting(ctx, mon):
                     key = 'symext-k1/!=dm-boundary'
                 elif e2['method'] == 'ref-boson' and e1['boson'] and (not e1['ppt']) and e1['k'] == e2['k'] and e1['dims'] == e2['dims']:
                     key = 'symext-boson/!=reference-bosonic-sdp'
+                elif (e2['method'] == 'symext' and e1.get('src') in ('numrange', 'pptnr') and e2.get('src') is None and e1['dims'] == e2['dims']
+                      and (e1['k'], e1['ppt'], e1['boson']) == (e2['k'], e2['ppt'], e2['boson'])):
+                    key = 'numerical_range/!=symext-boundary-on-the-same-ray'
                 else:
                     continue
                 gap = abs(e1['beta'] - e2['beta'])
@@ -838,15 +1004,16 @@ def check_nesting(ctx, mon):
                     continue
                 wit = {'symext': _cfg_str(e1), 'other': e2['method'], 'dims': e1['dims'], 'beta_symext': e1['beta'], 'beta_other': e2['beta']}
                 if gap > TOL_ORDER:
-                    r1 = _refined_beta(mon, e1, dig, d)
-                    if r1 is None:
+                    r1, r2 = _refined_beta(mon, e1, dig, d), _refined_beta(mon, e2, dig, d)
+                    if r1 is None or r2 is None:
                         ctx.inconclusive('nesting/refinement-solver-failure')
                         continue
                     wit['beta_symext_resolved_1e-8'] = r1
-                    if abs(r1 - e2['beta']) <= TOL_ORDER:
+                    wit['beta_other_resolved_1e-8'] = r2
+                    if abs(r1 - r2) <= TOL_ORDER:
                         ctx.inconclusive('nesting/excess-is-default-solver-tolerance(holds when re-solved to 1e-8)')
                         continue
-                    gap = abs(r1 - e2['beta'])
+                    gap = abs(r1 - r2)
                 ctx.set_case({'direction_digest': dig, 'inner': e1, 'outer': e2})
                 ctx.check(gap <= TOL_ORDER, key, 'the k-extension boundary must coincide with its independent reference (k=1: state-space / PPT boundary; '
                           'bosonic: the reference SDP on A (x) Sym^k(B)) up to 1e-4',
@@ -1712,6 +1879,139 @@ def run_api(ctx, numqi, mon, shard):
                 {'seed': seed, 'keyword_call': r0, 'variant': label, 'got': v})
 
 
+def run_tiny(ctx, numqi, mon, shard):
+    """numerical regime: the same ray given by a density matrix at distance t = 1e-6 .. 1e-10 from the maximally mixed state and at
+    distance 0.1. The direction of the short one is only known to eps/t, so the boundaries must agree to COND_C*eps/t (measured on
+    the unchanged tree: <= 1.3 eps/t); comparisons whose tolerance would exceed 1e-3 are inconclusive."""
+    E = numqi.entangle
+    rng = ctx.rng
+    drv = Driver(ctx, numqi, mon)
+    ts = [1e-6, 1e-7, 1e-8, 1e-10]
+    worst = {}
+    for it, (dA, dB) in enumerate(DIMS + [(3, 2)]):
+        dims = (dA, dB)
+        d = dA * dB
+        kind, seedrho = draw_direction(rng, dA, dB, [0, 4, 3, 6, 8][it])
+        u, _ = R.unit_direction(seedrho)
+        big = R.herm(np.eye(d) / d + 0.1 * u)
+        ctx.set_case({'op': 'tiny-distance', 'dims': dims, 'direction': kind})
+        ctx.workload('corner')
+        with ctx.guard('tiny'):
+            b0 = E.get_density_matrix_boundary(big)
+            p0 = E.get_ppt_boundary(big, dims)
+            smalls = [R.herm(np.eye(d) / d + t * u) for t in ts]
+            batch = np.stack(smalls + [big])
+            bb = E.get_density_matrix_boundary(batch)
+            pb = E.get_ppt_boundary(batch, dims)
+            for j, (t, sm) in enumerate(zip(ts, smalls)):
+                tol = max(1e-9, COND_C * EPS / t)
+                bs = E.get_density_matrix_boundary(sm)
+                ps = E.get_ppt_boundary(sm, dims)
+                for name, got, ref in (('dm_boundary', bs, b0), ('dm_boundary', (bb[0][j], bb[1][j]), b0), ('ppt_boundary', ps, p0), ('ppt_boundary', (pb[0][j], pb[1][j]), p0)):
+                    rel = max(abs(got[0] - ref[0]) / abs(ref[0]), abs(got[1] - ref[1]) / abs(ref[1]))
+                    worst[f't={t:g}'] = max(worst.get(f't={t:g}', 0.0), float(rel) / (EPS / t))
+                    ctx.check(rel <= tol, f'{name}/depends-on-length-of-rho',
+                              f'{name}: the same ray given at distance t from the maximally mixed state and at distance 0.1 gets different boundaries '
+                              '(beyond the accuracy eps/t to which the short one defines the direction)',
+                              {'dims': dims, 't': t, 'rel_diff': float(rel), 'tol': tol, 'got': [float(got[0]), float(got[1])], 'expected': [float(ref[0]), float(ref[1])]},
+                              point='tiny-distance')
+                E.hf_interpolate_dm(sm, beta=0.5 * float(b0[1]))
+                E.hf_interpolate_dm(sm, beta=float(p0[0]))
+                ctx.case('tiny-distance', dims, t, R.direction_digest_source(big), nontrivial=True)
+            if dims == (2, 2):
+                k0 = drv.boundary(big, dims, 2, True, False)
+                k1 = drv.boundary(smalls[0], dims, 2, True, False)
+                if k0 is not None and k1 is not None:
+                    ctx.check(abs(float(k0) - float(k1)) <= 2 * TOL_ORDER, 'symext_boundary/depends-on-length-of-rho',
+                              'k-extension boundary of the same ray given at distance 1e-6 and 0.1 differ by more than 2e-4',
+                              {'dims': dims, 'beta(0.1)': float(k0), 'beta(1e-6)': float(k1)}, point='tiny-distance')
+    ctx.extra['tiny_distance_worst_rel_diff_in_units_of_eps/t'] = worst
+
+
+def run_numrange(ctx, numqi, mon, shard):
+    """less prominent entry points: get_ABk_extension_numerical_range / get_ppt_numerical_range with a complete operator basis
+    describe the same ray as the boundary functions; every flag combination, keyword and positional (docstring order), single and
+    batched directions. The contracts log them into the per-direction event log (k=1 equalities, <= PPT, <= DM, == boundary function)."""
+    E = numqi.entangle
+    rng = ctx.rng
+    drv = Driver(ctx, numqi, mon)
+    for it, (dA, dB, kmax) in enumerate(shard['numrange']):
+        dims = (dA, dB)
+        d = dA * dB
+        rho = R.herm(0.85 * rand_pure_entangled(rng, dA, dB) + 0.15 * rand_dm(rng, d))
+        if it % 2 == 0:
+            ops = R.gm_basis(d) / 2
+            vec = R.bloch(rho)
+        else:  # the library's own basis, as its users would call it
+            ops = numqi.gellmann.all_gellmann_matrix(d, with_I=False) / 2
+            vec = np.einsum('iab,ba->i', ops, rho).real
+        direction = vec / np.linalg.norm(vec)
+        ctx.set_case({'op': 'numerical-range', 'dims': dims, 'kmax': kmax, 'basis': 'reference' if it % 2 == 0 else 'numqi'})
+        ctx.workload('realistic')
+        with ctx.guard('numrange'):
+            E.get_density_matrix_boundary(rho)
+            pu = float(E.get_ppt_boundary(rho, dims)[1])
+            for fac in (0.9, 1.1, 0.999999, 1.000001):
+                E.is_ppt(R.herm(R.ray_point(rho, fac * pu)), dims)
+                E.is_ppt(R.herm(R.ray_point(rho, fac * pu)), list(dims), -1e-7)
+            v = drv.sdp(lambda: E.get_ppt_numerical_range(ops, direction, dims, use_tqdm=False))
+            v2 = drv.sdp(lambda: E.get_ppt_numerical_range(ops, direction, dims, False, False))
+            if v is not None and v2 is not None:
+                ctx.check(abs(float(v) - float(v2)) <= TOL_ORDER, 'ppt_numerical_range/positional-call-differs-from-keyword-call',
+                          'get_ppt_numerical_range(op_list, direction, dim, return_info, use_tqdm) positional differs from keyword',
+                          {'dims': dims, 'keyword': float(v), 'positional': float(v2), 'beta_ppt': pu}, point='api-surface')
+            betas = {}
+            for k in range(1, kmax + 1):
+                for ppt in (False, True):
+                    for boson in (False, True):
+                        if cpu_left(ctx) < 0:
+                            ctx.inconclusive('budget-exhausted')
+                            break
+                        f = lambda *a, **kw: drv.sdp(lambda: E.get_ABk_extension_numerical_range(*a, **kw))
+                        a = f(ops, direction, dims, k, use_ppt=ppt, use_boson=boson, use_tqdm=False)
+                        b = f(ops, direction, dims, k, ppt, boson, use_tqdm=False)
+                        c = drv.boundary(rho, dims, k, ppt, boson)
+                        betas[f'k={k},ppt={int(ppt)},boson={int(boson)}'] = [None if t is None else round(float(t), 6) for t in (a, c)]
+                        wit = {'dims': dims, 'k': k, 'use_ppt': ppt, 'use_boson': boson, 'numerical_range(keyword)': a, 'numerical_range(positional)': b,
+                               'symext_boundary': c, 'beta_ppt': pu}
+                        if a is not None and b is not None:
+                            ctx.check(abs(float(a) - float(b)) <= TOL_ORDER, 'numerical_range/positional-call-differs-from-keyword-call',
+                                      'get_ABk_extension_numerical_range(op_list, direction, dim, kext, use_ppt, use_boson) positional differs from keyword',
+                                      wit, point='api-surface')
+            # the naive (explicit permutation constraints) membership test must agree with the irrep-based boundary, k=2
+            b2 = drv.boundary(rho, dims, 2, False, False) if kmax >= 2 else None
+            if b2 is not None and np.isfinite(b2) and d <= 6:
+                b2 = float(b2)
+                bdm = R.dm_boundary(rho)[1]
+                for label, beta, expect in (('inside', 0.9 * b2, True), ('outside', b2 + 3e-2, False)):
+                    if beta >= bdm - 1e-6:
+                        continue
+                    st = R.herm(R.ray_point(rho, beta))
+                    for kind_idx in ('2d', '1d'):
+                        r = drv.sdp(lambda: E.symext.is_ABk_symmetric_ext_naive(st, dims, 2, index_kind=kind_idx))
+                        if r is None:
+                            continue
+                        ok = isinstance(r, tuple) and len(r) == 2 and bool(r[0]) == expect
+                        if ok and expect:
+                            ext = np.asarray(r[1])
+                            red = R.reduce_ABk_to_AB(ext, dA, dB, 2) if ext.shape == (dA * dB * dB, dA * dB * dB) else None
+                            ok = red is not None and np.abs(red - st).max() <= 1e-4 and R.min_eig(ext) >= -1e-4
+                        ctx.check(ok, 'is_symext_naive/disagrees-with-symext-boundary',
+                                  'is_ABk_symmetric_ext_naive (k=2) disagrees with the irrep-based 2-extension boundary on a state 10% inside / 3e-2 outside, '
+                                  'or its returned extension does not reduce to the state', {'dims': dims, 'state': label, 'index_kind': kind_idx, 'beta_2ext': b2},
+                                  point='is_symext_naive')
+            # batched directions x one flag combination
+            dirs = np.stack([direction, -direction])
+            for (ppt, boson) in ((True, False), (False, True)):
+                vb = drv.sdp(lambda: E.get_ABk_extension_numerical_range(ops, dirs, dims, min(2, kmax), use_ppt=ppt, use_boson=boson, use_tqdm=False))
+                vs = drv.sdp(lambda: E.get_ABk_extension_numerical_range(ops, -direction, dims, min(2, kmax), use_ppt=ppt, use_boson=boson, use_tqdm=False))
+                if vb is not None and vs is not None:
+                    ctx.check(np.shape(vb) == (2,) and abs(float(vb[1]) - float(vs)) <= 2 * TOL_ORDER, 'numerical_range/batched!=single',
+                              'batched directions differ from the per-direction call (2e-4)', {'dims': dims, 'ppt': ppt, 'boson': boson}, point='api-surface')
+            ctx.case('numerical-range', dims, kmax, R.direction_digest_source(rho), nontrivial=True,
+                     sample={'kind': 'numerical-range', 'dims': dims, 'beta_ppt': pu, '[numerical_range, symext_boundary]': betas} if it == 0 else None)
+
+
 def run(ctx, shard):
     import numqi
     import time
@@ -1732,7 +2032,7 @@ def run(ctx, shard):
             run_cha(ctx, numqi, mon, shard)
         elif name.startswith('certk'):
             run_certk(ctx, numqi, mon, shard)
-        elif name.startswith('named') or name.startswith('api'):
+        elif name.startswith('named') or name.startswith('api') or name.startswith('numrange'):
             pass
         else:
             raise ValueError(name)
@@ -1740,6 +2040,10 @@ def run(ctx, shard):
             run_named(ctx, numqi, mon, shard)
         if shard.get('api'):
             run_api(ctx, numqi, mon, shard)
+        if shard.get('tiny'):
+            run_tiny(ctx, numqi, mon, shard)
+        if shard.get('numrange'):
+            run_numrange(ctx, numqi, mon, shard)
     finally:
         with ctx.quiet():
             check_nesting(ctx, mon)
